@@ -1,10 +1,17 @@
-"""C18 (partial) -- compiled kernels never read outside the argument arrays they are given.
+"""C18 (partial) -- compiled kernels never read outside their argument arrays, and the modelled places where numba's typed
+semantics leave the interpreter's are unreachable.
 
-Claimed clause only: for every RSL part of every channel class / splitting label / TMC kernel the
+Bounds clause: for every RSL part of every channel class / splitting label / TMC kernel the
 argument vector is the one the calling class really packs, wrapped in a bounds-recording array; the
 kernel runs (Python semantics, JIT off) at a symbolic z, all feasible paths explored; every index
 expression must satisfy 0 <= i < len.  In compiled mode a violation is a silent garbage read.
-Equality of machine code and interpreter results is NOT claimed (see DESIGN §4 C18).
+
+Typed-semantics clause (yv/engine/nbmodel.py): every @njit function of the current tree is instrumented (AST rewrite, code
+swapped in place) so that the same symbolic runs -- plus runs of the special functions li2, s2, nielsen, wgplg on an
+unrestricted symbolic argument -- record the events where typed code differs from the interpreter: lossy declared signature,
+integer ** negative integer, int64 overflow, unbound local / exception on a feasible path.  An event on a feasible path is a
+violation; its replay compiles the kernel with the JIT enabled in a sub-process and compares machine code with py_func.
+LLVM code generation proper (rounding-level differences) is NOT claimed (see DESIGN §4 C18).
 """
 
 import itertools
@@ -12,7 +19,7 @@ import itertools
 import numpy as np
 import z3
 
-from yv.engine import explore, harness, npshim, real, stubs
+from yv.engine import explore, harness, nbmodel, npshim, real, stubs
 from yv.engine.real import S, Ctx
 from yv.props import c03
 from yv.props import common as cm
@@ -92,20 +99,114 @@ def float_part(args):
     return (True, f"{args}: accesses {bad[:3]}") if bad else (False, f"all {len(log)} accesses inside the vector")
 
 
-REPLAYERS = {"part": float_part}
+REPLAYERS = {"part": float_part, "compiled": nbmodel.replay_compiled}
+
+
+def report_events(chk, events, where):
+    """typed-semantics events of one path (yv/engine/nbmodel.py); returns the number reported"""
+    n = 0
+    for ev in events:
+        n += 1
+        chk.report(f"nb:{ev['kind']}:{ev['module'].split('.')[-1]}.{ev['func']}",
+                   f"{where}: {ev['module']}.{ev['func']}: compiled and interpreted semantics differ -- {ev['detail']}", "compiled",
+                   dict(module=ev["module"], func=ev["func"], args=ev["args"], detail=ev["detail"]))
+    return n
+
+
+def report_raise(chk, exc, where):
+    """an exception of a kernel's Python body on a feasible path (the compiled kernel does not raise UnboundLocalError/NameError)"""
+    loc = nbmodel.locate_exception(exc)
+    if loc is None:
+        return False
+    (modname, func), args = loc
+    chk.report(f"nb:raise:{modname.split('.')[-1]}.{func}", f"{where}: {modname}.{func}: the interpreter raises {type(exc).__name__}: {str(exc)[:80]} on a feasible path",
+               "compiled", dict(module=modname, func=func, args=args, detail=f"{type(exc).__name__}: {str(exc)[:80]}"))
+    return True
+
+
+NIELSEN_NM = [(n, m) for n in range(1, 5) for m in range(1, 5) if n + m <= 5]
+
+
+def run_special(chk):
+    """li2, s2, nielsen, wgplg on an unrestricted symbolic real argument, every feasible path"""
+    from yadism.coefficient_functions import special
+    from yadism.coefficient_functions.asy import raw_nc
+    from yadism.coefficient_functions.special import nielsen as nmod
+
+    cases = [("li2", special.li2, (), dict(lo=None, hi=None)), ("s2", special.s2, (), dict(lo=0, hi=None))]
+    cases += [(f"nielsen({n},{m},X)", nmod.nielsen, (n, m), dict(lo=None, hi=None)) for n, m in NIELSEN_NM]
+    cases += [(f"wgplg({n},{m},X)", raw_nc.wgplg, (n, m), dict(lo=None, hi=None)) for n, m in NIELSEN_NM[:3]]
+    chk.encode(special.li2, special.s2, nmod.nielsen, raw_nc.wgplg)
+    npaths = 0
+    for name, f, pre, dom in cases:
+        with Ctx(chk.seed) as ctx, npshim.patched((nmod, "np", npshim.NPShim()), (special, "np", npshim.NPShim())):
+            def body(f=f, pre=pre, dom=dom):
+                nbmodel.take_events()
+                X = ctx.var("X", dom["lo"], dom["hi"], wlo=-3, whi=3)
+                f(*pre, X)
+                return nbmodel.take_events()
+
+            ex = explore.Explorer(ctx, max_paths=32, timeout_ms=3000)
+            paths = ex.run(body)
+            chk.paths += len(paths)
+            npaths += len(paths)
+            if ex.bound_hit:
+                chk.inconclusive_note(f"special:{name}: path bound hit")
+            for i, p in enumerate(paths):
+                chk.obligations += 1
+                chk.evaluations += 1
+                chk.nontrivial.add(f"special:{name}")
+                where = f"special:{name}/path{i}"
+                if p.kind == "exc":
+                    if isinstance(p.value, (real.NotEncodable, real.Concretised)):
+                        chk.inconclusive_note(f"{where}: not encodable: {p.value}")
+                    elif not report_raise(chk, p.value, where):
+                        chk.inconclusive_note(f"{where}: harness exception {p.value!r}")
+                    continue
+                if report_events(chk, p.value, where) == 0:
+                    chk.discharged += 1
+    chk.section("typed_semantics", special_function_paths=npaths)
 
 
 def run(chk, only=None):
+    stubs._preimport()
+    static = nbmodel.instrument()
+    try:
+        return _run(chk, only, static)
+    finally:
+        nbmodel.restore()
+
+
+def _run(chk, only, static):
     from yadism.coefficient_functions import partonic_channel as pcm
     from yadism.coefficient_functions import splitting_functions as split
     from yadism.esf import tmc
 
+    # ---- typed semantics: declared signatures (from the current source) ----
+    for key, info in sorted(nbmodel.INFO.items()):
+        chk.obligations += 1
+        bad = [f for f in static if (f["module"], f["func"]) == key]
+        if not bad:
+            chk.discharged += 1
+        for f in bad:
+            chk.report(f"nb:sig:{key[0].split('.')[-1]}.{key[1]}", f"{key[0]}.{key[1]}: {f['detail']}", "compiled",
+                       dict(module=key[0], func=key[1], args=[], static=True, sig=[info["sig"][0], info["sig"][1]] if info["sig"] else None, detail=f["detail"]))
+    if only in (None, "special"):
+        run_special(chk)
+    if only == "special":
+        return chk.finish(explanation="special functions only (developer run)", rule="")
+
     chk.encode(pcm.RSL.__init__, pcm.RSL.from_distr_coeffs, pcm.sing_from_distr_coeffs, pcm.loc_from_distr_coeffs, pcm.loc_from_delta)
     chk.bounds = {"z": "(0,1) symbolic", "classes": "every PartonicChannel subclass of light/heavy/asy/intrinsic x orders 0..3 x nf (3 quick / 3..6)",
                   "labels": "every splitting label x nf", "TMC kernels": "h2_ker, g2_ker, h3_ker, k2_ker with the [xi] vector",
-                  "claim": "ONLY 'no read outside the argument vector' on Python-semantics paths; machine-code equivalence NOT claimed"}
+                  "typed semantics": "all @njit kernels of the tree instrumented; special functions li2, s2 (x>0), nielsen/wgplg for every legal (n,m) on an "
+                                     "unrestricted real argument, <= 32 paths each; modelled divergence classes: lossy signature, int ** negative int, int64 overflow, "
+                                     "unbound local/exception on a feasible path",
+                  "claim": "'no read outside the argument vector' and 'no modelled typed-semantics divergence' on Python-semantics paths; machine-code equivalence "
+                           "beyond the modelled classes (LLVM code generation, rounding) NOT claimed"}
     chk.stub("LeProHQ/adani/tabulated coefficients/li2/nielsen -> atoms")
-    chk.assume("NUMBA_DISABLE_JIT=1: the kernels' Python bodies are what is executed; that the compiled code computes the same is not established here")
+    chk.assume("NUMBA_DISABLE_JIT=1: the kernels' Python bodies are what is executed; the compiled code is reached only in replays (JIT enabled in a sub-process)",
+               "numba's typed semantics differ from the interpreter's for these kernels only in the modelled classes (engine/nbmodel.py) up to rounding")
     naccess = 0
     items, _ = c03.class_items(chk.tier)
     items = [it for it in items if it[6] == 3] if chk.tier == "quick" else items
@@ -113,6 +214,7 @@ def run(chk, only=None):
         for order in range(4):
             with Ctx(chk.seed) as ctx, stubs.cf_stubs():
                 def body():
+                    nbmodel.take_events()
                     obj = c03.build(ctx, cls, kws, nf, proc)
                     rsl = obj[order]()
                     if rsl is None:
@@ -126,15 +228,24 @@ def run(chk, only=None):
                             out.append((part, len(rsl.args[part])) + run_part(ctx, f, list(rsl.args[part]), part))
                         except (real.NotEncodable, real.Concretised, TypeError, AttributeError) as e:
                             out.append((part, len(rsl.args[part]), [], ("skip", str(e)[:60])))
+                    out.append(("__events__", 0, nbmodel.take_events(), None))
                     return out
 
                 ex = explore.Explorer(ctx, max_paths=32, timeout_ms=3000)
                 paths = ex.run(body)
                 chk.paths += len(paths)
                 for p in paths:
+                    if p.kind == "exc" and isinstance(p.value, (UnboundLocalError, NameError)):
+                        ctx.assign = dict(p.assign)
+                        report_raise(chk, p.value, f"{key}/o{order}")
                     if p.kind != "ok" or not p.value:
                         continue
                     for part, n, log, err in p.value:
+                        if part == "__events__":
+                            chk.obligations += 1
+                            if report_events(chk, log, f"{key}/o{order}") == 0:
+                                chk.discharged += 1
+                            continue
                         chk.obligations += 1
                         chk.evaluations += 1
                         chk.nontrivial.add(f"{fam}.{mname}.{cname_}/o{order}/{part}")
@@ -190,10 +301,46 @@ def run(chk, only=None):
             else:
                 chk.report(f"oob:tmc.{ker}", f"tmc.{ker}: reads outside its argument vector ({err})", "part", dict(kind="tmc", ker=ker, part="reg"))
     chk.section("accesses", recorded=naccess)
+    # kernels no calling class reaches (dead or auxiliary code that is compiled all the same): run them directly on a symbolic z with an [nf] vector
+    import importlib
+
+    for (modname, fname), info in sorted(nbmodel.INFO.items()):
+        if info["entered"] or info["sig"] is None or info["sig"][1] not in (["f8", "f8[:]"], ["f8"]):
+            continue
+        with Ctx(chk.seed) as ctx, stubs.cf_stubs():
+            f = getattr(importlib.import_module(modname), fname)
+
+            def body(f=f, two=len(info["sig"][1]) == 2):
+                nbmodel.take_events()
+                z = ctx.var("z", 0, 1)
+                f(z, BoundsArray([4.0], [], "args")) if two else f(z)
+                return nbmodel.take_events()
+
+            for i, p in enumerate(explore.Explorer(ctx, max_paths=16, timeout_ms=3000).run(body)):
+                chk.paths += 1
+                chk.obligations += 1
+                if p.kind == "exc":
+                    if isinstance(p.value, (UnboundLocalError, NameError)):
+                        report_raise(chk, p.value, f"direct:{fname}/path{i}")
+                    else:
+                        chk.discharged += 1  # unknown calling convention: other exceptions are not this clause's subject
+                    continue
+                if report_events(chk, p.value, f"direct:{fname}/path{i}") == 0:
+                    chk.discharged += 1
+    left = nbmodel.take_events()
+    chk.obligations += 1
+    if report_events(chk, left, "splitting labels / TMC kernels") == 0:
+        chk.discharged += 1
+    entered = sorted(f"{k[0].split('coefficient_functions.')[-1]}.{k[1]}" for k, v in nbmodel.INFO.items() if v["entered"])
+    never = sorted(f"{k[0].split('coefficient_functions.')[-1]}.{k[1]}" for k, v in nbmodel.INFO.items() if not v["entered"])
+    chk.section("typed_semantics", kernels_instrumented=len(nbmodel.INFO), kernels_executed=len(entered), kernels_never_executed=never[:60])
     return chk.finish(
         explanation="Every RSL part of every channel class (x order x nf), every splitting label and the TMC kernels run (Python semantics) at a "
         "symbolic z on all feasible paths, with the argument vector the calling class really packs wrapped in a bounds-recording array; "
-        "every element access, iteration and slice is checked against 0 <= i < len (negative indices included). This is the only clause "
-        "of C18 that is claimed: agreement of the numba/LLVM machine code with the interpreter is not decidable with the solvers here.",
+        "every element access, iteration and slice is checked against 0 <= i < len (negative indices included). The same runs, plus runs of "
+        "li2/s2/nielsen/wgplg on an unrestricted symbolic argument, execute an instrumented copy of every @njit kernel that records where numba's typed "
+        "semantics leave the interpreter's (lossy declared signature, integer ** negative integer, int64 overflow, unbound local or exception on a "
+        "feasible path); an event is replayed against the machine code (JIT enabled in a sub-process). Agreement of the LLVM code with the interpreter "
+        "beyond these modelled classes is not claimed.",
         rule="one obligation per (class, order, part, path) / (label, nf, part) / TMC kernel; distinct = kernel part; non-trivial = it has an argument vector",
     )
